@@ -70,7 +70,8 @@ SkinIBMOK(o, s) ==
         a.type = "MAT4" /\ a.comp = 5126 /\ ~a.norm /\ a.view # -1 /\ a.dec /\ a.count = Len(s.joints)
 
 \* 3.7.3.1: the joints have a common root; a declared skin.skeleton is such a root
-CommonRoots(o, s) == {r \in NodeIds(o) : \A j \in Ran(s.joints) : r \in AncSelf(o, j)}
+CommonRoots(o, s) == LET anc == [j \in DOMAIN s.joints |-> AncSelf(o, s.joints[j])] IN     \* once per joint
+                     {r \in NodeIds(o) : \A j \in DOMAIN s.joints : r \in anc[j]}
 SkinRootOK(o, s) == CommonRoots(o, s) # {} /\ (s.skeleton # -1 => s.skeleton \in CommonRoots(o, s))
 
 (* ======================= animations: structure ========================= *)
@@ -203,11 +204,19 @@ SeqCause(sq) == IF sq.joint = -1 THEN "unknown-joint" ELSE IF sq.t = <<>> THEN "
 XModelInvalid(xm) == xm.anims # <<>> /\ (xm.skel = 0 \/ \E sq \in Ran(xm.anims) : SeqInvalid(sq))
 XModelValid(xm) == xm.anims = <<>> \/ (xm.skel # 0 /\ \A sq \in Ran(xm.anims) : SeqValid(sq))
 LiveX(src, xs) == {xs.models[i] : i \in Ran(LiveIx(src))}
-SceneClass(src, xs) == IF \E xm \in LiveX(src, xs) : XModelInvalid(xm) THEN "invalid"
+\* glTF 3.7.3.3 / 5.25: a node with a skin needs JOINTS_0 and WEIGHTS_0 on its mesh, and every joint index must name
+\* a joint of that skin: a model whose skeleton meets a mesh that is not rigged for it (no Joint / Weight attribute, or
+\* a joint number the skeleton does not have) has no valid document either
+Unrigged(src, xs, i) ==
+    /\ xs.models[i].skel # 0 /\ ~src.meshes[src.models[i].mesh].big
+    /\ ~SrcRigOK(src.meshes[src.models[i].mesh], xs.skels[xs.models[i].skel].n)
+SceneClass(src, xs) == IF \/ \E xm \in LiveX(src, xs) : XModelInvalid(xm)
+                          \/ \E i \in Ran(LiveIx(src)) : Unrigged(src, xs, i) THEN "invalid"
                        ELSE IF \A xm \in LiveX(src, xs) : XModelValid(xm) THEN "valid" ELSE "undetermined"
 InvalidCauses(src, xs) ==
     UNION {IF xm.anims # <<>> /\ xm.skel = 0 THEN {"no-skeleton"}
            ELSE {SeqCause(sq) : sq \in {q \in Ran(xm.anims) : SeqInvalid(q)}} : xm \in LiveX(src, xs)}
+    \cup (IF \E i \in Ran(LiveIx(src)) : Unrigged(src, xs, i) THEN {"mesh-not-rigged"} ELSE {})
 
 \* the sequences of the live models in scene order: <<[k |-> position among live models, q |-> sequence]>>
 RECURSIVE FlatSeqs(_, _, _)
